@@ -18,24 +18,36 @@ Section Jobs.
     e_path (fst j1) = e_path (fst j2) -> p_lfirst p1 = p_lfirst p2 -> p_llast p1 = p_llast p2 ->
     e_target (fst j1) = e_target (fst j2) /\ e_owner (fst j1) = e_owner (fst j2) /\ e_rule (fst j1) = e_rule (fst j2).
 
-  (** J-diag: among problems that tie on the whole sort key, the first diagnostic determines the rest: the
-      diagnostics agree as sets of (columns, message, position) and in number. *)
-  Definition J_diag : Prop := forall j1 j2 p1 p2,
-    In j1 jobs -> In j2 jobs -> In p1 (snd j1) -> In p2 (snd j2) ->
-    sort_key (norm (mk_report (fst j1) p1)) = sort_key (norm (mk_report (fst j2) p2)) ->
-    is_same_diags (p_diags p2) (p_diags p1) = true.
-
-  Theorem H2_from_job_invariants : J_loc -> J_diag -> H2 (sequential job report run_job jobs).
+  (** Since fix 346020d the sort key holds ALL diagnostics (sorted), so key-equal reports have the same diagnostics
+      and the second invariant the older code needed ("the first diagnostic determines the rest", which
+      promql/aggregate with several labels to keep/strip violated: one job per label, a shared first diagnostic)
+      is a theorem. *)
+  Lemma key_eq_same_diags (a b : report) :
+    sort_key (norm a) = sort_key (norm b) -> is_same_diags (r_diags b) (r_diags a) = true.
   Proof.
-    intros L D a b Ha Hb K. unfold sequential in Ha, Hb.
+    intros K. unfold sort_key in K. injection K as _ _ _ _ _ _ _ K. cbn [norm r_diags] in K.
+    assert (Pa : Permutation (map triple (r_diags a)) (map dkey (fsort (sort_diags (r_diags a)))))
+      by (apply Permutation_map; unfold fsort, sort_diags;
+          eapply Permutation_trans; [apply Permutation_sym, isort_perm|apply Permutation_sym, isort_perm]).
+    assert (Pb : Permutation (map triple (r_diags b)) (map dkey (fsort (sort_diags (r_diags b)))))
+      by (apply Permutation_map; unfold fsort, sort_diags;
+          eapply Permutation_trans; [apply Permutation_sym, isort_perm|apply Permutation_sym, isort_perm]).
+    apply is_same_diags_incl. split.
+    - rewrite <- (map_length triple (r_diags b)), <- (map_length triple (r_diags a)).
+      rewrite (Permutation_length Pa), (Permutation_length Pb), K. reflexivity.
+    - intros t Ht. apply (Permutation_in _ (Permutation_sym Pa)). rewrite K. now apply (Permutation_in _ Pb).
+  Qed.
+
+  Theorem H2_from_job_invariants : J_loc -> H2 (sequential job report run_job jobs).
+  Proof.
+    intros L a b Ha Hb K. pose proof (key_eq_same_diags a b K) as SD. unfold sequential in Ha, Hb.
     apply in_flat_map in Ha, Hb. destruct Ha as (j1 & Hj1 & Ha), Hb as (j2 & Hj2 & Hb).
     unfold run_job in Ha, Hb. apply in_map_iff in Ha, Hb.
     destruct Ha as (p1 & <- & Hp1), Hb as (p2 & <- & Hp2).
-    pose proof (D j1 j2 p1 p2 Hj1 Hj2 Hp1 Hp2 K) as SD.
     unfold sort_key in K. cbn [norm r_path r_lfirst r_llast r_sev r_reporter r_summary r_details mk_report] in K.
     injection K as K1 K2 K3 K4 K5 K6 K7 _.
     destruct (L j1 j2 p1 p2 Hj1 Hj2 Hp1 Hp2 K1 K2 K3) as (T & O & Ru).
-    unfold is_equal. cbn [mk_report r_target r_path r_owner r_lfirst r_llast r_details r_rule r_reporter r_summary r_diags r_sev].
+    unfold is_equal. cbn [mk_report r_target r_path r_owner r_lfirst r_llast r_details r_rule r_reporter r_summary r_diags r_sev] in *.
     rewrite T, K1, O, K2, K3, K7, Ru, K5, K6, K4, SD.
     now rewrite !String.eqb_refl, !Z.eqb_refl, N.eqb_refl.
   Qed.
